@@ -7,7 +7,7 @@ from .. import env, gen
 from ..oracle import H, file_bytes, stat_token
 
 RULE = (
-    "case = history of 12-40 events over 5-30 files: mutations {grow, shrink, same-size rewrite in place, replace-by-rename "
+    "case = history of 12-40 events over 5-30 files (a fifth of them symbolic links to files elsewhere): mutations {grow, shrink, same-size rewrite in place, replace-by-rename "
     "(same or other size), touch, delete, re-create (inode reuse happens naturally)} interleaved with queries {raw State.get, "
     "State.get_many vs get at the same instant, hash_file(state) under md5 / sha256 / md5-dos2unix / blake3 on the same paths with "
     "fresh or caller-supplied stat info, _get_hashes, staging a directory with a state-carrying store, index md5(), index "
@@ -21,7 +21,7 @@ ASSUMPTIONS = [
     "single-threaded: the bytes read right after an answer are the bytes the answer was about",
 ]
 MONITORS = "every (meta, hash) obtained through the state cache or carried over by update() compared with hashlib at the same instant"
-REQUIRED_COUNTERS = ["answers_checked", "state_hits_checked", "mutations", "get_vs_get_many_compared", "staging_listings_checked", "index_md5_checked",
+REQUIRED_COUNTERS = ["symlinked_files", "answers_checked", "state_hits_checked", "mutations", "get_vs_get_many_compared", "staging_listings_checked", "index_md5_checked",
                      "index_update_carried_checked", "injected_rows", "memfs_queries", "batch_boundary_cases", "mutations_between_queries", "ext4_cases"]
 
 ALGOS = ["md5", "sha256", "md5-dos2unix", "blake3"]
@@ -121,8 +121,18 @@ def run_shard(ctx):
                 nm = f"f{i:04d}" if batch else gen.name(rng, used={os.path.basename(p) for p in cur}, odd=0.3)
                 p = os.path.join(wdir, nm)
                 data = (b"%d" % i) if batch else gen.small_content(rng)
-                with open(p, "wb") as f:
-                    f.write(data)
+                if not batch and rng.random() < 0.2:
+                    # a symbolic link to a file elsewhere: answers are about the target's bytes
+                    tdir = os.path.join(d, "targets")
+                    os.makedirs(tdir, exist_ok=True)
+                    tgt = os.path.join(tdir, f"t{i}")
+                    with open(tgt, "wb") as f:
+                        f.write(data)
+                    os.symlink(tgt, p)
+                    res.count("symlinked_files")
+                else:
+                    with open(p, "wb") as f:
+                        f.write(data)
                 cur[p] = data
             hist = []
             last_q = {}  # path -> mutation count at last query
